@@ -119,3 +119,27 @@ CHECKS["C08"] = dict(
     text="The statement is 'within a small multiple of tol of the true minimum', so the oracle computes the true minimum (restricted least squares per sign pattern, minimum over all patterns) rather than trusting KKT bookkeeping; mapping back of coefficients and intercept, predict = Xw+b, l1_ratio=1 equals Lasso, target-shift invariance and every invalid setting returning Err are checked on the same cases; a fit that does not return is a violation of 'terminates'.",
     note="Slack 4*tol (calibrated worst case 1.0*tol over 277 M Lasso fits); designs with condition number > 1e4 are counted, not fitted; classes in which the unchanged library loops run under a 500 ms CPU-time guard on a helper thread.",
 )
+
+# ---- families added after rounds 3 and 4 of independently seeded changes (DESIGN.md §8)
+_BUILD = " Parameter-builder family (shared mc-sc::builders): every subset x every order of the with_* calls of this property's parameter types, type-changing with_distance/with_kernel at every position, each resulting value compared field by field with the request."
+_ENTRY = " Entry-path family (shared mc-sc::entry): trait fit/predict/transform entry points, a second matrix object with the same rows and the training rows in a larger query matrix must agree bit for bit with the inherent path on every 4-row data set over a 6-point lattice."
+EXT = {
+    "C03": " Every binary operation is also run with the very same object as both operands (aliasing).",
+    "C04": " Ring / annulus layouts (up to 16 points around data[0], two radii, three orders) reach cover-tree nodes whose child radius exceeds the parent's (counted, with a floor)." + _BUILD + _ENTRY,
+    "C05": _BUILD + _ENTRY,
+    "C06": " Class-size family: every n = 4..120 x every two-class split and singleton-class layouts (the stratified bootstrap block sizes depend only on these)." + _BUILD + _ENTRY,
+    "C07": " Parameters are also assembled through every order of builder calls and the struct literal; the built struct must carry the requested fields." + _BUILD + _ENTRY,
+    "C08": _BUILD + _ENTRY,
+    "C09": _BUILD + _ENTRY,
+    "C10": " Kernels and Gram matrices are checked at 6 (offset, spacing) placements in f64 and f32 and for polynomial degrees 2, 3, 2.5 and 0.5." + _BUILD + _ENTRY,
+    "C11": " Bernoulli thresholds >= 1 and < 0 on 0/1 data and a mixed alphabet containing exact 0 and 1." + _BUILD + _ENTRY,
+    "C12": " The assignment and fit families are repeated translated by 2^27 and 1.7e9 (decisions are translation invariant)." + _BUILD + _ENTRY,
+    "C13": _BUILD + _ENTRY,
+    "C14": _BUILD + _ENTRY,
+    "C15": " Length sweep n = 1..200 x k = 1..8 x constant / identical labellings for the cluster scores' special values.",
+    "C16": _BUILD,
+    "C17": " From-data Mahalanobis families shifted by up to 1e8 (f64) / 4096 (f32) with a translation-invariance check.",
+    "C19": " Edge-model family (no support vectors, zero priors, alpha = 0, single-leaf trees, k = n, all-noise DBSCAN, exactly-zero coefficients) and a sixth inequality twin whose label set overlaps the original's partly.",
+}
+for _k, _v in EXT.items():
+    CHECKS[_k]["text"] += _v
